@@ -72,27 +72,65 @@ def startsWithSpace (l : List Char) : Bool :=
 def afterTrim (trim : Bool) (s : PS) : PS :=
   if trim && startsWithSpace s.rest then { s with rest := s.rest.tail, src := s.src + 1 } else s
 
+theorem trimOne_eq (trim : Bool) (s1 : PS) : trimOne trim s1 = .ok () (afterTrim trim s1) := by
+  simp only [trimOne, bind, P.bind, peekRune]
+  cases htr : trim with
+  | false => simp [afterTrim, pure, P.pure]
+  | true =>
+    cases hr : s1.rest with
+    | nil => simp [afterTrim, hr, startsWithSpace, isSpace_nul, pure, P.pure]
+    | cons c cs =>
+      cases hc : isSpace c with
+      | false => simp [afterTrim, hr, startsWithSpace, hc, pure, P.pure]
+      | true => simp [afterTrim, hr, startsWithSpace, hc, readRune, incSrc, P.bind]
+
+/-- the parser's decision about the white space after a marker without processor; `none`: `trimwhitespace` is not a
+boolean -/
+def trimDecision (hadWs : Bool) (m : Marker) : Option Bool :=
+  if hadWs then
+    match getProp m.props "trimwhitespace" with
+    | some (.bool b) => some b
+    | some _ => none
+    | none => some (m.tag == .selfClose)
+  else some false
+
+theorem decideTrim_eq (hadWs : Bool) (m : Marker) (trim : Bool) (s1 : PS) (h : trimDecision hadWs m = some trim) :
+    decideTrim hadWs false m s1 = .ok trim s1 := by
+  unfold trimDecision at h
+  unfold decideTrim
+  cases hadWs with
+  | false => simp only [Bool.false_eq_true, if_false, Option.some.injEq] at h; subst h; rfl
+  | true =>
+    simp only [if_true] at h ⊢
+    cases hg : getProp m.props "trimwhitespace" with
+    | none => simp only [hg, Option.some.injEq] at h; subst h; simp [pure, P.pure]
+    | some v =>
+      cases v with
+      | bool b => simp only [hg, Option.some.injEq] at h; subst h; rfl
+      | int _ => simp [hg] at h
+      | float _ => simp [hg] at h
+      | str _ => simp [hg] at h
+
+/-- `markerStep` for a marker whose name has no processor -/
+theorem markerStep_general (pfuel : Nat) (st : LoopSt) (s s1 : PS) (m : Marker) (trim : Bool)
+    (hm : parseAttributeMarker pfuel s = .ok m s1) (hrepl : isReplacement m.name = false)
+    (ht : trimDecision (s1.pos == 0 || isSpace st.last) m = some trim) :
+    markerStep pfuel st s =
+      .ok { out := st.out, markers := st.markers ++ [m], last := '[' } (afterTrim trim s1) := by
+  simp only [markerStep, bind, P.bind, hm, getPos, hrepl, Bool.false_eq_true, if_false, pure, P.pure,
+    decideTrim_eq _ m trim s1 ht, trimOne_eq]
+  simp
+
 /-- `markerStep` for a marker without properties whose name has no processor -/
 theorem markerStep_simple (pfuel : Nat) (st : LoopSt) (s s1 : PS) (m : Marker)
     (hm : parseAttributeMarker pfuel s = .ok m s1) (hprops : m.props = []) (hrepl : isReplacement m.name = false) :
     markerStep pfuel st s =
       .ok { out := st.out, markers := st.markers ++ [m], last := '[' }
         (afterTrim ((s1.pos == 0 || isSpace st.last) && m.tag == .selfClose) s1) := by
-  simp only [markerStep, bind, P.bind, hm, getPos, hrepl, Bool.false_eq_true, if_false, pure, P.pure, hprops, getProp,
-    List.find?_nil, Option.map_none, Bool.not_false, Bool.and_true, peekRune]
-  cases hh : (s1.pos == 0 || isSpace st.last) with
-  | false => simp [afterTrim, P.pure]
-  | true =>
-    simp only [if_true, P.pure, Bool.true_and]
-    cases ht : (m.tag == Tag.selfClose) with
-    | false => simp [afterTrim, P.pure]
-    | true =>
-      cases hr : s1.rest with
-      | nil => simp [afterTrim, hr, startsWithSpace, isSpace_nul, P.pure]
-      | cons c cs =>
-        cases hc : isSpace c with
-        | false => simp [afterTrim, hr, startsWithSpace, hc, P.pure]
-        | true => simp [afterTrim, hr, startsWithSpace, hc, readRune, incSrc, P.bind, P.pure]
+  apply markerStep_general pfuel st s s1 m _ hm hrepl
+  unfold trimDecision
+  simp only [hprops, getProp, List.find?_nil, Option.map_none]
+  cases (s1.pos == 0 || isSpace st.last) <;> simp
 
 theorem isReplacement_ofList (n : List Char) : isReplacement (String.ofList n) = isReplName n := by
   simp only [isReplacement, isReplName, replNames, List.contains_cons, List.contains_nil, Bool.or_false]
@@ -131,7 +169,7 @@ structure Inv (S : St) (R : List Char) (st : LoopSt) (s : PS) : Prop where
 /-- the chunk is simulated: `n` iterations of the main loop take the parser from a state that agrees with `S` to one that
 agrees with `S'` -/
 def StepSim (pfuel : Nat) (c : Chunk) : Prop :=
-  ∀ (S S' : St) (R : List Char) (st : LoopSt) (s : PS),
+  ∀ (S S' : St) (R : List Char) (st : LoopSt) (s : PS), s.rest.length < pfuel →
     Inv S (renderChunk c ++ R) st s → stepChunk S c = some S' →
     ∃ (n : Nat) (st' : LoopSt) (s' : PS), Inv S' R st' s' ∧ n + s'.rest.length ≤ s.rest.length ∧
       ∀ fuel, mainLoop pfuel (fuel + n) st s = mainLoop pfuel fuel st' s'
@@ -170,7 +208,7 @@ theorem stepSim_text_aux (pfuel : Nat) (S : St) (R kept : List Char) (st : LoopS
     exact mainLoop_plain pfuel kept R hk fuel st src pos
 
 theorem stepSim_text (pfuel : Nat) (t : List Char) (ht : ∀ c ∈ t, c ≠ '[' ∧ c ≠ '\\') : StepSim pfuel (.text t) := by
-  intro S S' R st s hinv hstep
+  intro S S' R st s _ hinv hstep
   cases t with
   | nil =>
     simp only [stepChunk, Option.some.injEq] at hstep
@@ -199,7 +237,7 @@ theorem stepSim_text (pfuel : Nat) (t : List Char) (ht : ∀ c ∈ t, c ≠ '[' 
       exact this
 
 theorem stepSim_esc (pfuel : Nat) (c : Chunk) (hc : c = .escOpen ∨ c = .escClose) : StepSim pfuel c := by
-  intro S S' R st s hinv hstep
+  intro S S' R st s _ hinv hstep
   obtain ⟨rest, src, pos⟩ := s
   have hrest := hinv.rest
   have hsrc := hinv.src
@@ -297,7 +335,7 @@ theorem removeLast_map (n : String) (ms : List Marker) :
 
 theorem stepSim_opn (pfuel : Nat) (n : List Char) (ws : List (List Char)) (hn : isIdent n = true)
     (hr : isReplName n = false) (hws : wsOk ws = true) : StepSim (pfuel + 1) (.opn n none [] ws) := by
-  intro S S' R st s hinv hstep
+  intro S S' R st s _ hinv hstep
   simp [stepChunk, resolve, resolveProps, trimRule, lookup] at hstep
   have hrepl : isReplacement (String.ofList n) = false := by rw [isReplacement_ofList]; exact hr
   obtain ⟨a, t, rfl, hid⟩ := ident_cases hn
@@ -331,7 +369,7 @@ theorem stepSim_opn (pfuel : Nat) (n : List Char) (ws : List (List Char)) (hn : 
 
 theorem stepSim_selfClose (pfuel : Nat) (n : List Char) (ws : List (List Char)) (hn : isIdent n = true)
     (hr : isReplName n = false) (hws : wsOk ws = true) : StepSim (pfuel + 1) (.selfClose n none [] ws) := by
-  intro S S' R st s hinv hstep
+  intro S S' R st s _ hinv hstep
   simp [stepChunk, resolve, resolveProps, trimRule, lookup, hr, asMap] at hstep
   have hrepl : isReplacement (String.ofList n) = false := by rw [isReplacement_ofList]; exact hr
   obtain ⟨a, t, rfl, hid⟩ := ident_cases hn
@@ -378,7 +416,7 @@ theorem attrOf_eq (o : Marker) (p : Nat) : attrOf o o.name p = closeAttr (toOpen
 
 theorem stepSim_close (pfuel : Nat) (n : List Char) (ws : List (List Char)) (hn : isIdent n = true)
     (hr : isReplName n = false) (hws : wsOk ws = true) : StepSim pfuel (.close n ws) := by
-  intro S S' R st s hinv hstep
+  intro S S' R st s _ hinv hstep
   have hrepl : isReplacement (String.ofList n) = false := by rw [isReplacement_ofList]; exact hr
   simp only [stepChunk, bind, Option.bind] at hstep
   cases hrl : removeLast (String.ofList n) S.opens with
@@ -432,7 +470,7 @@ theorem stepSim_close (pfuel : Nat) (n : List Char) (ws : List (List Char)) (hn 
     · simp only [List.length_cons, List.length_append]; omega
 
 theorem stepSim_closeAll (pfuel : Nat) (ws : List (List Char)) (hws : wsOk ws = true) : StepSim pfuel (.closeAll ws) := by
-  intro S S' R st s hinv hstep
+  intro S S' R st s _ hinv hstep
   simp only [stepChunk, pure, Option.some.injEq] at hstep
   have hw0 := allSpace_slot ws 0 hws
   have hw1 := allSpace_slot ws 1 hws
@@ -517,15 +555,15 @@ theorem stepSim_core (pfuel : Nat) (c : Chunk) (h : isCore c = true) : StepSim (
 theorem render_cons (c : Chunk) (cs : List Chunk) : render (c :: cs) = renderChunk c ++ render cs := by
   simp [render]
 
-/-- the main loop simulates the fold of `stepChunk` over a list of core chunks -/
-theorem sim_fold (pfuel : Nat) : ∀ (cs : List Chunk) (S S' : St) (st : LoopSt) (s : PS),
-    (∀ c ∈ cs, isCore c = true) → Inv S (render cs) st s → cs.foldlM stepChunk S = some S' →
+/-- the main loop simulates the fold of `stepChunk` over a list of chunks each of which is simulated -/
+theorem sim_fold_gen (pfuel : Nat) : ∀ (cs : List Chunk) (S S' : St) (st : LoopSt) (s : PS),
+    (∀ c ∈ cs, StepSim pfuel c) → s.rest.length < pfuel → Inv S (render cs) st s → cs.foldlM stepChunk S = some S' →
     ∃ (n : Nat) (st' : LoopSt) (s' : PS), Inv S' [] st' s' ∧ n ≤ s.rest.length ∧
-      ∀ fuel, mainLoop (pfuel + 1) (fuel + 1 + n) st s = .ok st' s' := by
+      ∀ fuel, mainLoop pfuel (fuel + 1 + n) st s = .ok st' s' := by
   intro cs
   induction cs with
   | nil =>
-    intro S S' st s _ hinv hfold
+    intro S S' st s _ _ hinv hfold
     simp only [List.foldlM_nil, pure, Option.some.injEq] at hfold
     subst hfold
     refine ⟨0, st, s, by simpa [render] using hinv, by omega, ?_⟩
@@ -534,7 +572,7 @@ theorem sim_fold (pfuel : Nat) : ∀ (cs : List Chunk) (S S' : St) (st : LoopSt)
     simp only [render, List.flatMap_nil, List.tail_nil, ite_self] at hr
     simp only [mainLoop, bind, P.bind, readRune, hr, pure, P.pure]
   | cons c cs ih =>
-    intro S S' st s hcore hinv hfold
+    intro S S' st s hsim hp hinv hfold
     simp only [List.foldlM_cons, bind, Option.bind] at hfold
     cases hstep : stepChunk S c with
     | none => simp [hstep] at hfold
@@ -542,11 +580,19 @@ theorem sim_fold (pfuel : Nat) : ∀ (cs : List Chunk) (S S' : St) (st : LoopSt)
       simp only [hstep] at hfold
       rw [render_cons] at hinv
       obtain ⟨n1, st1, s1, hinv1, hlen1, hrun1⟩ :=
-        stepSim_core pfuel c (hcore c List.mem_cons_self) S S1 (render cs) st s hinv hstep
+        hsim c List.mem_cons_self S S1 (render cs) st s hp hinv hstep
       obtain ⟨n2, st2, s2, hinv2, hlen2, hrun2⟩ :=
-        ih S1 S' st1 s1 (fun d hd => hcore d (List.mem_cons_of_mem _ hd)) hinv1 hfold
+        ih S1 S' st1 s1 (fun d hd => hsim d (List.mem_cons_of_mem _ hd)) (by omega) hinv1 hfold
       refine ⟨n2 + n1, st2, s2, hinv2, by omega, ?_⟩
       intro fuel
       rw [show fuel + 1 + (n2 + n1) = (fuel + 1 + n2) + n1 by omega, hrun1, hrun2]
+
+/-- the main loop simulates the fold of `stepChunk` over a list of core chunks -/
+theorem sim_fold (pfuel : Nat) (cs : List Chunk) (S S' : St) (st : LoopSt) (s : PS)
+    (hc : ∀ c ∈ cs, isCore c = true) (hp : s.rest.length < pfuel + 1) (hinv : Inv S (render cs) st s)
+    (hfold : cs.foldlM stepChunk S = some S') :
+    ∃ (n : Nat) (st' : LoopSt) (s' : PS), Inv S' [] st' s' ∧ n ≤ s.rest.length ∧
+      ∀ fuel, mainLoop (pfuel + 1) (fuel + 1 + n) st s = .ok st' s' :=
+  sim_fold_gen (pfuel + 1) cs S S' st s (fun c h => stepSim_core pfuel c (hc c h)) hp hinv hfold
 
 end Ysgo.Markup
